@@ -154,6 +154,9 @@ def run(ctx):
                     dirs = rewritten_dirs(op) if op[0] not in ("write", "truncate", "hclose") else [t.rsplit("/", 1)[0] or "/" for t in targets]
                     targets |= set(open_h.values())        # files with an open handle are not durable yet
                     prot = protected(tree, dirs, targets)
+                    if op[0] == "removetree":
+                        # the whole subtree is what the operation removes: everything below it is its target, at every depth
+                        prot = {p: t for p, t in prot.items() if not p.startswith(op[1].rstrip("/") + "/")}
                     pts = crash_points(w, v.bps, ctx.scale(60, 200))
                     if len(pts) >= 3 and prot:
                         ctx.nontrivial.add((label, op[0], tuple(p for p in pts[:6])))
